@@ -41,15 +41,23 @@ pub fn convert_node(ast: &ASTTy, imp: &mut Imports, state: &State, ctx: &Context
             from,
             import,
             alias,
-        } => Core::Import {
-            from: if let Some(from) = from {
-                Some(Box::from(convert_node(from, imp, state, ctx)?))
-            } else {
-                None
-            },
-            import: convert_vec(import, imp, state, ctx)?,
-            alias: convert_vec(alias, imp, state, ctx)?,
-        },
+        } => {
+            // Names in an import are those of the imported module: List stays List, not list
+            let mut verbatim = |ast: &ASTTy| match &ast.node {
+                NodeTy::Id { lit } => Ok(Core::Id { lit: lit.clone() }),
+                _ => convert_node(ast, imp, state, ctx),
+            };
+
+            Core::Import {
+                from: if let Some(from) = from {
+                    Some(Box::from(verbatim(from)?))
+                } else {
+                    None
+                },
+                import: import.iter().map(&mut verbatim).collect::<GenResult<_>>()?,
+                alias: alias.iter().map(&mut verbatim).collect::<GenResult<_>>()?,
+            }
+        }
 
         NodeTy::VariableDef { .. } | NodeTy::FunDef { .. } | NodeTy::FunArg { .. } => {
             convert_def(ast, imp, state, ctx)?
